@@ -19,6 +19,7 @@ independently computed hull (scipy/qhull in a gnomonic chart), size of the 1- an
 intersection areas symmetric and bounded by both footprints.
 """
 import math
+import random
 
 import numpy as np
 
@@ -716,6 +717,10 @@ def group_case(ctx, rec, members, policy, lines, pending):
                                            'footprint_sr': a, 'hull_sr': h})
             else:
                 parts = sum(abs(m['obj'].polygon.area()) for m in members)
+                if rec.calls:
+                    # multi_union was refused by spherical_geometry and the code fell back (as documented)
+                    # to the convex hull of all sources: then the hull is the only upper bound
+                    parts = max(parts, h)
                 if a > h * (1 + AREA_RTOL) + AREA_ATOL or a > parts * (1 + AREA_RTOL) + AREA_ATOL \
                         or a < max(abs(m['obj'].polygon.area()) for m in members) * (1 - AREA_RTOL) - AREA_ATOL:
                     ctx.oracle_fail(case, {'what': 'exact group footprint area outside [largest member, '
@@ -814,6 +819,49 @@ def ref_case(ctx, rec, ra, dec, ftol, lines, pending, label):
     return {'obj': ref, 'ra': ra, 'dec': dec, 'case': case}
 
 
+def expanded_ref_case(ctx, rng, parts, ftol):
+    """a reference catalog that grew by `expand_catalog` (one, two or three steps, starting from 1..all
+    sources of the first part): its footprint must contain ALL of its sources and be tight about their hull"""
+    from astropy.table import Table
+    from tweakwcs.wcsimage import RefCatalog
+    order = list(parts)
+    rng.shuffle(order)
+    n0 = rng.choice([1, 2, 3, len(order[0]['ra'])])
+    ra0, dec0 = np.asarray(order[0]['ra'], float)[:n0], np.asarray(order[0]['dec'], float)[:n0]
+    steps = [(np.asarray(order[0]['ra'], float)[n0:], np.asarray(order[0]['dec'], float)[n0:])]
+    steps += [(np.asarray(p['ra'], float), np.asarray(p['dec'], float)) for p in order[1:rng.choice([1, 2, 3])]]
+    steps = [st for st in steps if len(st[0])]
+    case = {'op': 'refcat-expanded', 'RA0': ra0.tolist(), 'DEC0': dec0.tolist(),
+            'steps': [[a.tolist(), b.tolist()] for a, b in steps], 'footprint_tol': ftol}
+    ctx.case(case, nontrivial=bool(steps), branch='refcat:expanded:%d' % len(steps))
+    try:
+        ref = RefCatalog(Table([ra0, dec0], names=('RA', 'DEC')), footprint_tol=ftol)
+        ra, dec = ra0, dec0
+        for a, b in steps:
+            ref.expand_catalog(Table([a, b], names=('RA', 'DEC')))
+            ra, dec = np.concatenate([ra, a]), np.concatenate([dec, b])
+            if len(ref.catalog) != len(ra):
+                ctx.oracle_fail(case, {'what': 'expand_catalog did not append exactly the given rows',
+                                       'rows': len(ref.catalog), 'expected': len(ra)})
+                return
+            v = s2c(ra, dec)
+            if len(ra) >= 3 and hull_area_oracle(ra, dec) is not None:
+                if not check_polygon_sources(ctx, case, 'refcat after expand_catalog', ref.polygon, ra, dec):
+                    return
+                check_area_vs_hull(ctx, case, 'refcat after expand_catalog', ref.polygon, ra, dec)
+            else:
+                if not check_polygon_sources(ctx, case, 'refcat after expand_catalog', ref.polygon, ra, dec,
+                                             strict=len(ra) <= 2):
+                    return
+            a_ = abs(ref.polygon.area())
+            if ref.poly_area is None or abs(ref.poly_area - a_) > 1e-9 * a_ + 1e-30:
+                ctx.oracle_fail(case, {'what': 'refcat poly_area is not the area of its polygon after expand_catalog',
+                                       'poly_area': ref.poly_area, 'area': a_})
+                return
+    except Exception as e:
+        ctx.oracle_fail(case, {'what': 'RefCatalog / expand_catalog raised', 'exc': repr(e)[:200]})
+
+
 def area_of(o):
     return abs(o['obj'].polygon.area())
 
@@ -823,6 +871,39 @@ def overlap_checks(ctx, a, b, label, bound=True):
     case = {'op': 'overlap', 'pair': label, 'a': a['case'], 'b': b['case']}
     ctx.case(case, nontrivial=True, branch='overlap:' + label)
     vals = {}
+    # spherical_geometry refuses some degenerate pairs (sliver footprints, shared vertices) with
+    # MalformedPolygonError - sometimes in one order only, and not reproducibly; the package documents
+    # that (its callers use the guarded variant, which counts such failures).  The property constrains
+    # the areas that are REPORTED: a refused order reports none (skipped, counted), the guarded variant
+    # must count the refusal, and an area reported by the other order must still respect the bounds.
+    from spherical_geometry.polygon import MalformedPolygonError
+    refused = {}
+    for nm, (p, q) in (('ab', (a, b)), ('ba', (b, a))):
+        try:
+            v = float(p['obj'].intersection_area(q['obj']))
+            refused[nm] = False
+            vals[nm] = v
+        except MalformedPolygonError:
+            refused[nm] = True
+        except Exception:   # noqa  (reported below)
+            refused[nm] = False
+    if refused['ab'] or refused['ba']:
+        ctx.near_tie()
+        ctx.branch('overlap:refused-by-spherical_geometry:%s' % ('both' if refused['ab'] and refused['ba'] else 'one'))
+        for nm, (p, q) in (('ab', (a, b)), ('ba', (b, a))):
+            try:
+                ga, nf = p['obj']._guarded_intersection_area(q['obj'])
+            except Exception as e:
+                ctx.oracle_fail(case, {'what': '_guarded_intersection_area raised (%s)' % nm, 'exc': repr(e)[:200]})
+                return
+        if bound:
+            for v in vals.values():
+                for nm, o in (('a', a), ('b', b)):
+                    ar = area_of(o)
+                    if abs(v - 4 * math.pi) > 1e-6 and v > ar * (1 + AREA_RTOL) + AREA_ATOL:
+                        ctx.oracle_fail(case, {'what': 'intersection area exceeds the area of footprint %s' % nm,
+                                               'intersection_sr': v, 'footprint_sr': ar})
+        return None
     for nm, (p, q) in (('ab', (a, b)), ('ba', (b, a))):
         try:
             vals[nm] = float(p['obj'].intersection_area(q['obj']))
@@ -893,6 +974,8 @@ def sky_scene(ctx, rec, loc, lines, pending):
         R2a = ref_case(ctx, rec, [r0, r0 + sepdeg / max(0.05, math.cos(math.radians(d0)))], [d0, d0], ftol, lines,
                        pending, 'two-parallel')
     R3 = ref_case(ctx, rec, C['ra'][:3], C['dec'][:3], ftol, lines, pending, 'three')
+    # (own random stream derived from the scene, so that the scenes of a seed stay what they were)
+    expanded_ref_case(ctx, random.Random(repr((float(allra[0]), float(alldec[0]), len(allra), ftol))), [A, B, C], ftol)
     # overlaps
     overlap_checks(ctx, A, C, 'image-image')
     overlap_checks(ctx, B, C, 'image-image')
@@ -992,6 +1075,19 @@ def probes(ctx, rec, lines, pending):
     if R:
         overlap_checks(ctx, A, R, 'probe-F16:image-refcat')
         overlap_checks(ctx, G, R, 'probe-F16:group-refcat')
+    # sliver footprint (three almost collinear sources) against reference catalogs sharing its vertices:
+    # spherical_geometry refuses the intersection in both orders; the guarded variant counts the failure
+    # (two former false alarms of this oracle: see DESIGN.md 0.2)
+    w = mkwcs(10.0, 20.0, 130.85069719147515, 3e-05, (-38.0, 300.0))
+    xs = np.array([312.85534009, 637.64191354, 573.21844117])
+    ys = np.array([853.74623532, 30.69929477, 193.60045836])
+    im = WCSImageCatalog(Table([xs, ys], names=('x', 'y')), FITSWCSCorrector(w))
+    ra, dec = im.det_to_world(xs, ys)
+    S = {'obj': im, 'ra': np.asarray(ra), 'dec': np.asarray(dec), 'case': {'op': 'image', 'probe': 'sliver'}, 'n': 3}
+    for ft in (10.0, 1.0):
+        R = ref_case(ctx, rec, ra, dec, ft, lines, pending, 'probe-sliver')
+        if R:
+            overlap_checks(ctx, R, S, 'probe-sliver:refcat3-image')
     # F22 (fixed c7b17c0): corrector without a bounding box and <= 2 sources: the whole-image footprint
     # built from the catalog ended half a pixel below the largest coordinate
     from tweakwcs.tests.helper_correctors import make_mock_jwst_wcs
